@@ -178,7 +178,7 @@ fn udp_e2e(uring: bool, use4: bool, use6: bool, only6: bool) -> (u64, Vec<V>, St
     let label = format!("udp {} use_ipv4={} use_ipv6={} set_only_ipv6={}", if uring { "io_uring" } else { "mio" }, use4, use6, only6);
     let cfg = json!({"socket_workers": 1, "network": {"use_io_uring": uring, "use_ipv4": use4, "use_ipv6": use6, "set_only_ipv6": only6}});
     let mut t = TrackerChild::spawn("udp", cfg, &[]);
-    if !t.wait_ready(8) {
+    if !t.wait_ready(30) {
         let line = t.line_with("RUN-RETURNED").unwrap_or_default();
         return (0, vec![], format!("{}: not served ({})", label, line.chars().take(120).collect::<String>()));
     }
@@ -263,13 +263,18 @@ fn http_e2e(use4: bool, use6: bool, only6: bool) -> (u64, Vec<V>, String) {
     let label = format!("http use_ipv4={} use_ipv6={} set_only_ipv6={}", use4, use6, only6);
     let cfg = json!({"network": {"use_ipv4": use4, "use_ipv6": use6, "set_only_ipv6": only6}});
     let mut t = TrackerChild::spawn("http", cfg, &[]);
-    if !t.wait_ready(8) {
+    if !t.wait_ready(30) {
         let line = t.line_with("RUN-RETURNED").unwrap_or_default();
         return (0, vec![], format!("{}: not served ({})", label, line.chars().take(120).collect::<String>()));
     }
     let mut viols = Vec::new();
     let mut n = 0;
     let srcs = sources(use4, use6, use6 && !only6);
+    for x in srcs.iter() {
+        if !wait_tcp(SocketAddr::new(x.dst, t.port), 8) {
+            machinery_failure("http tracker does not accept connections on a configured family");
+        }
+    }
     for (xi, x) in srcs.iter().enumerate() {
         let mut h = [0x44u8; 20];
         h[0] = xi as u8;
@@ -312,7 +317,7 @@ fn http_e2e(use4: bool, use6: bool, only6: bool) -> (u64, Vec<V>, String) {
 fn http_proxy_e2e() -> (u64, Vec<V>, String) {
     let cfg = json!({"network": {"runs_behind_reverse_proxy": true, "reverse_proxy_ip_header_name": "X-Real-Client"}});
     let mut t = TrackerChild::spawn("http", cfg, &[]);
-    if !t.wait_ready(8) {
+    if !t.wait_ready(30) {
         machinery_failure("http proxy tracker did not start");
     }
     let mut viols = Vec::new();
@@ -354,7 +359,7 @@ fn ws_e2e(address: &str, only6: bool) -> (u64, Vec<V>, String) {
     let label = format!("ws address={} only_ipv6={}", address, only6);
     let cfg = json!({"network": {"address": address, "only_ipv6": only6}});
     let mut t = TrackerChild::spawn("ws", cfg, &[]);
-    if !t.wait_ready(8) {
+    if !t.wait_ready(30) {
         return (0, vec![], format!("{}: not served", label));
     }
     let mut viols = Vec::new();
@@ -370,6 +375,11 @@ fn ws_e2e(address: &str, only6: bool) -> (u64, Vec<V>, String) {
     if !v4_listen {
         clients.push(("::1".parse().unwrap(), "::1".parse().unwrap(), false));
         clients.push(("fd00::2".parse().unwrap(), "fd00::2".parse().unwrap(), false));
+    }
+    for (_, dst, _) in clients.iter() {
+        if !wait_tcp(SocketAddr::new(*dst, t.port), 8) {
+            machinery_failure("ws tracker does not accept connections on a configured family");
+        }
     }
     let h = id20(&[b'W'; 20]);
     let mut conns: Vec<(WsConn, bool)> = Vec::new();
